@@ -185,9 +185,20 @@ def tagsCnt (A : Arr) (exact : Option Nat) : List String :=
       | .fin s, some x => if s == 0 then "f64-zero" else if s == x * F64.U then "f64-exact" else "f64-rounded"
       | .fin _, none => "f64-finite" ]
 
+/-- `j:c` pairs: the iterator's `count()` after `j` explicit `next()` calls must be `total − j`; the
+    fresh iterator (`j = 0`) must be among them -/
+def checkCounts (what : String) (total : Nat) (s : String) : Option String :=
+  match parsePairs? s with
+  | none => some s!"outcome:{what}:{s}"
+  | some ps =>
+    if !(ps.any (·.1 == 0)) then some s!"harness:{what}-no-fresh-count"
+    else match ps.find? (fun (j, c) => c + j != total) with
+      | some (j, _) => some (if j == 0 then s!"{what}.count()≠N-on-fresh-iterator" else s!"{what}.count()-after-j-next≠N-j")
+      | none => none
+
 def handle (key : String) (ins obs : List String) : Verdict :=
   match key, ins, obs with
-  | "C09.cnt", [a], [oExact, oClause, oBits, oSup, oSpv, oSize, oPaths] =>
+  | "C09.cnt", [a], [oExact, oClause, oBits, oSup, oSpv, oSize, oPaths, oPC, oVC] =>
     match parseArr? a with
     | some A =>
       let n := numVars A
@@ -199,6 +210,7 @@ def handle (key : String) (ins obs : List String) : Verdict :=
           let br := brute A
           let canon := reducedAnyOrder A
           let tt := if useTT A then ttOf A n else #[]
+          let redundant := (List.range A.size).any (fun p => p ≥ 2 && (nodeAt A p).low == (nodeAt A p).high)
           firstFail [
             if useTT A then (if popcount tt == ex then none else some "exact≠popcount") else none,
             match br with | some (_, c) => if c == ex then none else some "exact≠Σpaths" | none => none,
@@ -207,6 +219,15 @@ def handle (key : String) (ins obs : List String) : Verdict :=
             if oPaths == "-" then none
             else if oPaths == "panic" && (List.range A.size).any (fun p => p ≥ 2 && (nodeAt A p).low == (nodeAt A p).high) then none
             else (if oPaths.toNat? == some cl then none else some "clause≠sat_clauses.count"),
+            -- `count()` of the iterator after j explicit `next()` calls must be (proved clause count) − j
+            if oPC == "-" || (oPC == "panic" && redundant) then none
+            else checkCounts "sat_clauses" (clauseCard A) oPC,
+            -- sat_valuations: explicit loop count and `count()` after j calls against the proved exact count
+            if oVC == "-" || (oVC == "panic" && redundant) then none
+            else match oVC.splitOn ";" with
+              | [lp, rest] => firstFail [if lp.toNat? == some (exactCard A) then none else some "exact≠sat_valuations-loop",
+                                         checkCounts "sat_valuations" (exactCard A) rest]
+              | _ => some s!"outcome:sat_valuations:{oVC}",
             if !canon then none
             else if useTT A then (if ttSupport tt n == sup then none else some "support≠dependence")
             else if sup.length ≤ 12 then
